@@ -207,3 +207,49 @@ Theorem C05_stuck_allowed_reachable :
   run_main 50 C05Demo.demo41 [C05Demo.b8 3] = RunStuck 41.
 Proof. vm_compute. repeat split; reflexivity. Qed.
 Print Assumptions C05_stuck_allowed_reachable.
+
+(* ------------------------------------------------------------------------------------
+   Program level: every circuit the model of compile.rs emits (whenever the bit-level
+   semantics of the program is defined on some input of the right length) passes
+   Circuit::validate, has exactly the party sizes computed by the parameter wiring and
+   161 + |value bits| outputs. *)
+From GV Require Import Builder.Builder Builder.Build Panic.PanicRec Panic.PanicSem Compile.Lower Compile.TSem Compile.LowerSound.
+
+Theorem C05_lowered_circuit_valid_shape : forall fuel dedup P s1 outs,
+  lower_main_with fuel dedup P = Ok (PreOk s1 outs) ->
+  counter (cb s1) + (b_shift (cb s1) - 2) <= MAX_GATES ->
+  exists fd igs bindings,
+    find_fn P (p_main P) = Some fd /\ param_wiring P (fn_params fd) = (igs, bindings) /\
+    forall ins inp o vouts,
+      load_inputs igs ins = Some inp ->
+      tsem_program fuel P (param_args bindings inp) = Ok (o, vouts) ->
+      exists c,
+        lower_program_with fuel dedup P = Ok (LCircuit c) /\
+        ssa_validate c = None /\ input_gates c = igs /\
+        length (output_gates c) = (161 + length vouts)%nat.
+Proof.
+  intros fuel dedup P s1 outs H M.
+  destruct (lower_program_sound fuel dedup P s1 outs H M) as (fd & igs & bindings & Efd & Epw & S).
+  exists fd, igs, bindings. split; [assumption|]. split; [assumption|]. intros ins inp o vouts Hl Ht.
+  destruct (S ins inp o vouts Hl Ht) as (c & out & L & V & Ig & Len & _). eauto.
+Qed.
+Print Assumptions C05_lowered_circuit_valid_shape.
+
+(* the parameter wiring: one party per parameter, of the size of its type; a single array
+   parameter becomes one party per element *)
+Theorem C05_param_wiring_sizes : forall P x el n p1 p2 ps,
+  fst (param_wiring P [(x, TArr el n)]) = repeat (N.of_nat (szn P el)) (N.to_nat n) /\
+  fst (param_wiring P (p1 :: p2 :: ps)) = map (fun p => N.of_nat (szn P (snd p))) (p1 :: p2 :: ps).
+Proof.
+  intros P x el n p1 p2 ps. split; [reflexivity|].
+  assert (G : forall (params : list (N * ty)) (igs : list N) (bs : list (N * list N)) (w : N),
+    fst (fst (fold_left (fun '(igs, bs, wire) '(x, t) =>
+                 let s := szn P t in
+                 (igs ++ [N.of_nat s], bs ++ [(x, wire_range wire s)], wire + N.of_nat s)) params (igs, bs, w)))
+    = igs ++ map (fun p => N.of_nat (szn P (snd p))) params).
+  { induction params as [|[y t] params IH]; intros igs bs w; cbn [fold_left map]; [now rewrite app_nil_r|].
+    rewrite IH. cbn [snd]. now rewrite <- app_assoc. }
+  unfold param_wiring. destruct p1 as [y1 t1]. specialize (G ((y1, t1) :: p2 :: ps) [] [] 2).
+  destruct t1; destruct (fold_left _ _ _) as [[igs bs] w]; cbn [fst] in *; exact G.
+Qed.
+Print Assumptions C05_param_wiring_sizes.
